@@ -20,6 +20,13 @@ type KnownFinding struct {
 
 var findingRe = regexp.MustCompile(`^finding:\s+property=(\S+)\s+obligation="([^"]+)"\s+(.*)$`)
 
+// oblBase strips the conjunct (.N) and occurrence (~N) suffixes the generator appends to a clause's
+// obligation name: a known finding names the clause and its return site, and stays the same finding
+// whichever conjunct of that clause, or whichever execution path to that site, exhibits it.
+var oblSuffixRe = regexp.MustCompile(`((\.\d+)+)?(~\d+)?$`)
+
+func oblBase(name string) string { return oblSuffixRe.ReplaceAllString(name, "") }
+
 func loadKnownFindings(path string) []KnownFinding {
 	f, err := os.Open(path)
 	if err != nil {
@@ -76,7 +83,7 @@ func finishRun(e *Engine, results []*FnResult, ro runOpts) int {
 	e.knownObl = map[string]bool{}
 	for _, k := range known {
 		if k.Property == ro.prop {
-			e.knownObl[k.Obligation] = true
+			e.knownObl[oblBase(k.Obligation)] = true
 		}
 	}
 	exit := 0
@@ -89,6 +96,7 @@ func finishRun(e *Engine, results []*FnResult, ro runOpts) int {
 	violations := 0
 	vacChecks := 0
 	bmcCache := map[string]*ReplayFile{}
+	knownPrinted := map[int]bool{}
 	absSet := map[string]bool{}
 	assumedSet := map[string]bool{}
 	var samples []any
@@ -151,9 +159,12 @@ func finishRun(e *Engine, results []*FnResult, ro runOpts) int {
 			}
 			// known finding?
 			isKnown := false
-			for _, k := range known {
-				if k.Property == ro.prop && k.Obligation == o.Name {
-					fmt.Printf("KNOWN-FINDING: property=%s %s (obligation %s)\n", ro.prop, k.What, o.Name)
+			for ki, k := range known {
+				if k.Property == ro.prop && oblBase(k.Obligation) == oblBase(o.Name) {
+					if !knownPrinted[ki] {
+						fmt.Printf("KNOWN-FINDING: property=%s %s (obligation %s)\n", ro.prop, k.What, oblBase(o.Name))
+						knownPrinted[ki] = true
+					}
 					isKnown = true
 					break
 				}
@@ -174,14 +185,31 @@ func finishRun(e *Engine, results []*FnResult, ro runOpts) int {
 				smtPath = o.Model // candidate model of the quantifier-free weakening
 			}
 			smt, _ := os.ReadFile(smtPath)
-			rf := e.buildReplay(r, o, string(smt))
+			// the search for a failing input is bounded in wall time per run (quick 150 s, thorough 900 s from the
+			// first failure); later failures are still reported, with the solver's output and no-failing-input-found
+			if e.failDeadline.IsZero() {
+				budget := 150 * time.Second
+				if ro.tier == "thorough" {
+					budget = 900 * time.Second
+				}
+				e.failDeadline = time.Now().Add(budget)
+			}
+			var rf *ReplayFile
+			if time.Now().After(e.failDeadline) {
+				rf = &ReplayFile{Obligation: o.Name, Kind: o.Kind, Function: r.Fn, Package: r.Pkg, Clause: o.Text, Solver: o.Solver, SolverOutput: o.Detail,
+					Note: "failing-input search skipped: the run's replay time budget was used up by earlier failures"}
+			} else {
+				rf = e.buildReplay(r, o, string(smt))
+			}
 			rf.Property = ro.prop
 			rf.SMTFile = smtPath
 			if o.Status == "unknown" {
 				rf.SolverOutput = "undecided: " + o.Detail
 			}
-			runReplay(rf, ro.repoDir, filepath.Join(e.workDir, "replay"))
-			if !rf.Reproduced && r.Contract != nil {
+			if time.Now().Before(e.failDeadline) {
+				runReplay(rf, ro.repoDir, filepath.Join(e.workDir, "replay"))
+			}
+			if !rf.Reproduced && r.Contract != nil && time.Now().Before(e.failDeadline) {
 				// look for a concrete failing input by bounded unrolling of the same function (once per function)
 				if _, done := bmcCache[r.Fn]; !done {
 					bmcCache[r.Fn] = e.bmcSearch(r, ro.prop, ro.repoDir, map[string]bool{"post": true, "index": true, "nilderef": true, "typeassert": true,
@@ -290,9 +318,14 @@ func finishRun(e *Engine, results []*FnResult, ro runOpts) int {
 		"wall_s":      round3(time.Since(ro.t0).Seconds()),
 		"violations":  violations,
 	}
-	os.MkdirAll(filepath.Join(ro.verifDir, "evidence"), 0o755)
+	// seeded-change and debugging runs set VERIF_EVIDENCE_DIR so that they never overwrite the record of the real tree
+	evDir := os.Getenv("VERIF_EVIDENCE_DIR")
+	if evDir == "" {
+		evDir = filepath.Join(ro.verifDir, "evidence")
+	}
+	os.MkdirAll(evDir, 0o755)
 	js, _ := json.MarshalIndent(ev, "", " ")
-	os.WriteFile(filepath.Join(ro.verifDir, "evidence", ro.prop+".json"), js, 0o644)
+	os.WriteFile(filepath.Join(evDir, ro.prop+".json"), js, 0o644)
 	fmt.Printf("%s [%s]: %d functions under contract, %d obligations, %d discharged, %d known findings, solver %.1fs, wall %.1fs\n",
 		ro.prop, ro.tier, len(fns), nob, ndis, len(knownObs), solverTime, time.Since(ro.t0).Seconds())
 	return exit
